@@ -409,6 +409,52 @@ class World:
             rec['task'] = task
         else:
             rec['task'] = self.loop.spawn(caller(), name=name)
+        # The caller makes its call *now*: its first step goes to the front of the ready queue, ahead of callbacks
+        # that are already scheduled (e.g. the wake-up of a lock waiter after the holder released the lock).  Arriving
+        # behind them is the same as arriving now at a later step boundary, which is offered as well.
+        # (Not for by_task: there the transfer's task is *created* now and starts when the loop gets to it - abort/pause
+        # may cancel it before it has run at all.)
+        ready = self.loop._ready
+        if len(ready) > 1 and not by_task:
+            ready.appendleft(ready.pop())
+        self.recs.append(rec)
+        return rec
+
+    def issue_deferred(self, op, reason=None, remotely=False, style='kw'):
+        """"created earlier, started later": the call `transfer.state.<op>(...)` is made NOW (the coroutine object is
+        bound to the state object of this moment, as the coroutines manage_shares_changed collects for gather are) but
+        it only starts to run when rec['start']() is called."""
+        t = self.transfer
+        st = t.state
+        rec = {'i': len(self.recs), 'op': op, 'captured': st.VALUE.name, 'captured_obj': st, 'result': _MISSING, 'exc': None,
+               'run_state': None, 'overlaps': False, 'by_task': False, 'cancelled_while_pending': False, 'style': style,
+               'task': None, 'deferred': True, 'found': {'created_at': self.loop.time()}}
+        if op == 'fail' or (op == 'abort' and style != 'none'):
+            rec['expect_reason'] = None if style == 'none' else reason
+        elif op == 'queue' and style != 'none':
+            rec['expect_remotely'] = remotely
+        m = getattr(st, op)
+        if op == 'queue':
+            coro = m() if style == 'none' else m(remotely=remotely)
+        elif op in ('fail', 'abort'):
+            coro = m() if style == 'none' else m(reason) if style == 'pos' else m(reason=reason)
+        else:
+            coro = m()
+
+        async def caller():
+            rec['found']['started_at'] = self.loop.time()
+            try:
+                rec['result'] = await coro
+            except InvalidStateTransition as e:
+                rec['result'] = False
+                rec['exc'] = e
+            except Exception as e:  # noqa
+                rec['exc'] = e
+            rec['answered'] = True
+
+        def start():
+            rec['task'] = self.loop.spawn(caller(), name=f'deferred-{rec["i"]}-{op}')
+        rec['start'] = start
         self.recs.append(rec)
         return rec
 
@@ -686,6 +732,114 @@ def h_overlap(c, state, direction, op_a, n=2, slow=True, ops=None, by_task=None,
         judge_overlap(c, w, state, ops_list)
 
 
+# ------------------------------------------------------------------------------------------
+# H4: a request coroutine created on one state object and started after another request changed the state
+# ------------------------------------------------------------------------------------------
+
+def h_deferred(c, state, direction):
+    first = c.pick(OPS, 'first_op')
+    late = c.pick(RAW_OPS, 'deferred_op')
+    present = {k: True for k in ('start_time', 'complete_time', 'filesize', 'place_in_queue', 'fail_reason', 'abort_reason',
+                                 'local_path')}
+    with World(c, direction, False) as w:
+        w.set_symbolic_fields(present)
+        w.set_state(state)
+        w.attach_tasks('transfer+queue')
+        args_late = w.fresh_args(0, late, rich=1)
+        args_first = w.fresh_args(1, first, rich=0)
+        w.start_observing()
+        rec_late = w.issue_deferred(late, *args_late)          # created at t0 ...
+        w.issue(first, *args_first)
+        w.settle()                                             # ... another request runs to completion ...
+        rec_late['start']()                                    # ... only now does the early coroutine start
+        w.settle()
+        c.reach('deferred_end')
+        judge_overlap(c, w, state, [late + ' (created first, started last)', first])
+
+
+# ------------------------------------------------------------------------------------------
+# H5: TransferManager.manage_shares_changed (real manager) racing with the upload task's complete() / fail()
+# ------------------------------------------------------------------------------------------
+
+def h_shares_cycle(c, state):
+    """an upload that the shares / block-list evaluation wants aborted (or not), a shares cycle of the real
+    TransferManager, and the upload task finishing (complete / fail) in the same loop iterations; which ready
+    callback runs next is a discriminant (VLoop picker).  Reasons are written only by the state machine: a transfer
+    that listeners never saw ABORTED keeps its abort_reason; one that became ABORTED carries the evaluated reason."""
+    from engine import fakes_transfer as ft
+    from aioslsk.user.model import BlockingFlag
+    kind = c.pick(['allowed', 'blocked', 'not_shared', 'blocked+not_shared'], 'share_situation')
+    competitor = c.pick(['none', 'complete', 'fail'], 'competitor')
+    present = {k: True for k in ('start_time', 'complete_time', 'filesize', 'place_in_queue', 'fail_reason', 'local_path')}
+    present['abort_reason'] = c.choose(2, 'present_abort_reason') == 1
+    direction = 'UPLOAD'
+    with World(c, direction, False) as w:
+        t = w.transfer
+        rw = w.loop.call(ft.build_world, w.loop)
+        mgr = rw.manager
+        blocked, shared = 'blocked' in kind, 'not_shared' not in kind
+        if blocked:
+            rw.settings.users.blocked = {t.username: BlockingFlag.UPLOADS}
+        item = rw.shares.find_shared_item_cache(t.remote_path)
+        rw.shares.find_shared_item_cache = lambda p, u=None: item if shared else None
+        mgr._transfers.append(t)
+        t.state_listeners[0] = mgr              # the real manager instead of the skeleton one
+        w.manager = mgr
+        w.set_symbolic_fields(present)
+        w.set_state(state)
+        pre_abort, pre_fail = t.abort_reason, t.fail_reason
+        args = w.fresh_args(0, competitor, rich=1) if competitor != 'none' else None
+        w.start_observing()
+        w.loop.picker = lambda n: c.choose(n, 'next_ready')
+        cycle = w.loop.spawn(mgr.manage_shares_changed(), name='shares-cycle')
+        rec = w.issue(competitor, *args) if args is not None else None
+        w.settle()
+        w.loop.picker = None
+        c.reach('shares_cycle_end')
+        c.check(cycle.done() and not cycle.cancelled() and cycle.exception() is None, 'request_answered',
+                sig=[state, 'shares_cycle'], info={'problem': 'manage_shares_changed did not finish normally'})
+        # the reason the evaluation arrives at (AbortReason: Requested > Blocked > File not shared)
+        if pre_abort is not None and bool(pre_abort == 'Requested'):
+            expected = 'Requested'
+        elif blocked:
+            expected = 'Blocked'
+        elif not shared:
+            expected = 'File not shared'
+        else:
+            expected = None
+        sig = [state, kind, competitor]
+        E = edges(direction)
+        prev = state
+        for i, (_, old, new) in enumerate(w.changes):
+            c.check((old, new) in E, 'observed_change_is_edge', sig=sig, info={'old': old, 'new': new})
+            c.check(old == prev or (prev, old) in E, 'observed_old_is_previous_state', sig=sig, info={'old': old, 'previous': prev})
+            prev = new
+            if new == 'ABORTED':
+                c.reach('shares_abort_performed')
+                c.check(expected is not None and same(w.change_snap[i]['abort_reason'], expected), 'aborted_with_evaluated_reason',
+                        sig=sig, info={'expected': expected})
+        now = t.state.VALUE.name
+        c.check(now == prev or (prev, now) in E, 'final_state_reached_by_edge', sig=sig, info={'last_seen': prev, 'now': now})
+        told = [new for _, _, new in w.changes]
+        if state != 'ABORTED' and 'ABORTED' not in told:
+            if expected is not None and state not in ('COMPLETE', 'FAILED'):
+                c.reach('shares_abort_refused_or_skipped')
+            c.check(same(pre_abort, t.abort_reason), 'unaborted_transfer_keeps_abort_reason', sig=sig,
+                    info={'state_now': now, 'problem': 'abort_reason changed although listeners never saw the transfer ABORTED'})
+        if state == 'ABORTED' and now == 'ABORTED' and expected is not None:
+            c.check(same(t.abort_reason, expected), 'aborted_with_evaluated_reason', sig=sig, info={'expected': expected})
+        if 'FAILED' not in told and not (state == 'ABORTED' and 'QUEUED' in told):
+            c.check(same(pre_fail, t.fail_reason), 'unfailed_transfer_keeps_fail_reason', sig=sig, info={'state_now': now})
+        if rec is not None:
+            out = outcome(rec)
+            c.check(out in ('accepted', 'refused'), 'request_answered', sig=sig, info={'outcome': out, 'exc': repr(rec['exc'])})
+            if out == 'accepted':
+                judge_accepted_effects(c, w, rec, [i for i, ch in enumerate(w.changes) if ch[0] is rec['task']], sig)
+        if not c.symbolic:
+            c.note(f'shares situation {kind}, competitor {competitor}, listener saw: ' + ', '.join(f'{o}->{n}' for _, o, n in w.changes))
+            c.note(f'abort_reason before {pre_abort!r} after {t.abort_reason!r}; final state {now}')
+
+
 def judge_overlap(c, w, state, ops_list):
     direction = w.direction
     E = edges(direction)
@@ -769,7 +923,8 @@ def _real_functions():
             Transfer.is_upload, Transfer.is_transfered, Transfer._transfer_task_complete,
             Transfer._remotely_queue_task_complete,
             TransferManager.abort, TransferManager.queue, TransferManager.pause,
-            TransferManager.on_transfer_state_changed, TransferManager.request_management_cycle]
+            TransferManager.on_transfer_state_changed, TransferManager.request_management_cycle,
+            TransferManager.manage_shares_changed, TransferManager._evaluate_aborted_state]
     return fns
 
 
@@ -787,7 +942,13 @@ META = {
                    'sequences of any length). H2 sequence: k requests from the constructor state. H3 overlap: 2 (thorough: 3) '
                    'requests; a later request arrives at every point at which the situation it finds (state object, lock holder '
                    'and queue, suspended hop, finished requests) differs, including while task cancellation, file removal or a '
-                   'listener keeps the lock holder suspended. Refusals are attributed to the request by an attribute write log.',
+                   'listener keeps the lock holder suspended; the arriving caller makes its call at once, i.e. ahead of callbacks '
+                   'that are already scheduled (such as the wake-up of a lock waiter after the holder released the lock). Refusals '
+                   'are attributed to the request by an attribute write log. H4 deferred: the request coroutine is created on the '
+                   'state object of t0 (as manage_shares_changed does for gather) and started after another request ran. H5 '
+                   'shares_cycle: manage_shares_changed of a real TransferManager (real constructor, Settings, EventBus, UserManager; '
+                   'fake network / shares) on an upload that is blocked / no longer shared / allowed, racing with the upload '
+                   'task\'s complete() / fail(); the next ready callback is chosen by the solver-driven picker.',
     'functions': _real_functions(),
     'stubs': ['transfer.state.asyncos (aiofiles.os) -> in-memory file model FakeFs (path.exists / remove), each call optionally a '
               '1 s suspension; validated against real aiofiles.os in the prelude',
@@ -797,7 +958,9 @@ META = {
               'Transfer._state_lock is replaced by an asyncio.Lock subclass instance that reports acquisitions',
               'transfer tasks (_transfer_task / _remotely_queue_task) are asyncio.Task subclass instances (report cancel()) running '
               '"wait for ever; on cancellation optionally take 1 s", with the real done-callbacks of Transfer attached',
-              'TransferManager built with object.__new__ and only _transfers / _management_queue / _management_flags',
+              'TransferManager built with object.__new__ and only _transfers / _management_queue / _management_flags (H1-H4)',
+              'H5: engine.fakes_transfer.build_world - real TransferManager/Settings/EventBus/UserManager, FakeNetwork, FakeShares '
+              '(find_shared_item_cache answers as the scenario says), user tracking a no-op; blocking through the real settings.users.blocked',
               'fail/abort reasons are a symbolic index into a fixed vocabulary (all FailReason/AbortReason constants, the empty string, two foreign strings) with ==, != and truth value; the strings themselves in concrete replay'],
     'data_variables': ['fail_reason / abort_reason and the reason argument (symbolic member of an 11-string vocabulary incl. every FailReason/AbortReason constant; None as discriminant)',
                        'start_time, complete_time, every time.time()/monotonic() reading (Real >= 0, readings non-decreasing)',
@@ -807,9 +970,14 @@ META = {
     'discriminants': ['state class (10)', 'request (8 state methods + 3 TransferManager calls)', 'direction (2)',
                       'None-ness of each Optional field', 'which task slots are occupied', 'hops suspend or not',
                       'arrival point of the 2nd / 3rd request (schedule)',
-                      'how the caller passes the argument (left out / keyword / positional, as manager.py does)'],
+                      'how the caller passes the argument (left out / keyword / positional, as manager.py does)',
+                      'deferred: (state, request that runs first, request created earlier and started later)',
+                      'shares_cycle: upload state, share situation (allowed / blocked / not shared / both), competitor (none / complete / fail), '
+                      'order of ready callbacks (VLoop picker)'],
     'bounds': {'quick': {'step': 'all states x 11 requests x 2 directions; None-ness: start_time x all-others',
-                         'sequence': 'k=3 requests from the constructor', 'overlap': '2 requests, all states, 11x11, slow hops'},
+                         'sequence': 'k=3 requests from the constructor',
+                         'overlap': '2 requests, all states, 11x11, slow hops; 3 requests behind a slow abort/pause in 4 states',
+                         'deferred': 'all states x 11 first requests x 8 deferred requests', 'shares_cycle': 'all upload states x 4 x 3, every callback order'},
                'thorough': {'step': 'all 2^7 None-ness patterns, 4 task-slot patterns', 'sequence': 'k=4',
                             'overlap': '2 requests 11x11 slow and fast; 3 requests 11x8x8 slow'}},
     'outside': ['more than three overlapping requests', 'the callers in manager.py (which request they issue when) - only the three '
@@ -874,6 +1042,21 @@ def jobs(tier):
                         out.append({'harness': 'overlap', 'fn': h_overlap,
                                     'params': {'state': s, 'direction': d, 'op_a': a, 'n': 3, 'ops': RAW_OPS, 'coarse': True},
                                     'requires': req})
+    # a request coroutine created on one state object, started after another request changed the state
+    for d in DIRECTIONS:
+        for s in STATES:
+            if valid_pre_state(s, d):
+                out.append({'harness': 'deferred', 'fn': h_deferred, 'params': {'state': s, 'direction': d},
+                            'requires': ['deferred_end', 'captured_state_outdated_when_run']})
+    # the real TransferManager's shares cycle racing with the upload task finishing
+    for s in STATES:
+        if valid_pre_state(s, 'UPLOAD'):
+            req = ['shares_cycle_end']
+            if s in ('VIRGIN', 'QUEUED', 'INITIALIZING', 'UPLOADING', 'PAUSED'):
+                req.append('shares_abort_refused_or_skipped')
+            if s in ('QUEUED', 'INITIALIZING', 'UPLOADING', 'PAUSED', 'INCOMPLETE'):
+                req.append('shares_abort_performed')
+            out.append({'harness': 'shares_cycle', 'fn': h_shares_cycle, 'params': {'state': s}, 'requires': req})
     # requests issued by the transfer's own task ("transfer tasks finishing"): the task is what abort/pause cancel
     for d in DIRECTIONS:
         for s in (['INITIALIZING', 'DOWNLOADING', 'UPLOADING'] if q else ['QUEUED', 'INITIALIZING', 'DOWNLOADING', 'UPLOADING', 'INCOMPLETE']):
